@@ -425,30 +425,33 @@ impl VLogWriter {
 		max_file_size: u64,
 		compression: u8,
 	) -> Result<Self> {
-		let file_exists = path.exists();
 		let file = OpenOptions::new().create(true).append(true).open(path)?;
 
 		// Clone the fd before BufWriter consumes ownership. This cloned fd
 		// is used to perform fsync outside the write lock.
 		let sync_fd = Arc::new(file.try_clone()?);
 
-		let current_offset = file.metadata()?.len();
+		let mut current_offset = file.metadata()?.len();
+
+		// A file shorter than its header was created right before a crash: the
+		// header write did not reach the disk in full, so nothing was ever appended
+		// and nothing points into it. Start it over.
+		if current_offset < VLogFileHeader::SIZE as u64 {
+			if current_offset > 0 {
+				file.set_len(0)?;
+			}
+			current_offset = 0;
+		}
 		let mut writer = BufWriter::new(file);
 
 		// If this is a new file, write the header
-		if !file_exists || current_offset == 0 {
+		if current_offset == 0 {
 			let header = VLogFileHeader::new(file_id, max_file_size, compression);
 			let header_bytes = header.encode();
 			writer.write_all(&header_bytes)?;
 			writer.flush()?;
+			current_offset = VLogFileHeader::SIZE as u64;
 		}
-
-		// Update offset to account for header
-		let current_offset = if !file_exists || current_offset == 0 {
-			VLogFileHeader::SIZE as u64
-		} else {
-			current_offset
-		};
 
 		Ok(Self {
 			writer,
@@ -672,8 +675,9 @@ impl VLog {
 				// Pre-open the file handle and validate header
 				match File::open(&file_path) {
 					Ok(file) => {
-						// Validate file header for existing files
-						if file_size > 0 {
+						// Validate file header for existing files (a file shorter than
+						// its header never held an entry, see VLogWriter::new)
+						if file_size >= VLogFileHeader::SIZE as u64 {
 							let mut header_data = vec![0u8; VLogFileHeader::SIZE];
 							vfs::File::read_at(&file, 0, &mut header_data)?;
 							let header = VLogFileHeader::decode(&header_data)?;
@@ -764,8 +768,8 @@ impl VLog {
 			})?
 			.len();
 
-		if file_size > 0 {
-			// Only validate header if file has content (not a new empty file)
+		if file_size >= VLogFileHeader::SIZE as u64 {
+			// Only validate header if file has content (not a new or torn empty file)
 			let mut header_data = vec![0u8; VLogFileHeader::SIZE];
 			vfs::File::read_at(&file, 0, &mut header_data).map_err(|e| {
 				log::error!(
